@@ -176,6 +176,20 @@ enum Chunk {
     CorpusMutations(usize, usize, usize),
     /// one loop-free program under every vector of configuration values
     ConfigGrid(usize),
+    /// every program of the type-checker-configuration family under one configuration variant
+    TcConfig(usize),
+}
+
+/// Programs for the type-checker configurations: the grid programs and one idiom program per representative kind.
+fn tc_programs() -> Vec<Vec<u8>> {
+    let mut v = grid_programs().clone();
+    for kind in crate::c04::representative_kinds() {
+        v.push(crate::c04::build(&crate::c04::Case {
+            vars: vec![(crate::idioms::Var { slot: U::from_u64(5), kind }, crate::idioms::Mode::Both)],
+            spelling: 1,
+        }));
+    }
+    v
 }
 
 /// Loop-free programs that use every configurable mechanism (copies, hashing, memory, forks, storage idioms).
@@ -316,6 +330,9 @@ fn plan(tier: Tier) -> Vec<Chunk> {
     }
     for i in 0..grid_programs().len() {
         v.push(Chunk::ConfigGrid(i));
+    }
+    for i in 0..crate::obs::TC_VARIANTS {
+        v.push(Chunk::TcConfig(i));
     }
     let mutated = if tier.thorough() { small_corpus().len() } else { 1 };
     for (ci, c) in small_corpus().iter().enumerate().take(mutated) {
@@ -474,6 +491,40 @@ impl Check for C01 {
                 }
                 let _ = template_name(t);
             }
+            Chunk::TcConfig(variant) => {
+                for code in tc_programs() {
+                    for permissive in [false, true] {
+                        let vm = || sle::vm::Config::default().with_permissive_errors(permissive);
+                        let (name, _) = crate::obs::tc_variant(variant);
+                        ctx.case(|| json!({"bytes": hex(&code), "config": vm_config_json(&vm()), "tc_variant": variant}));
+                        ctx.count("evaluations", 1);
+                        ctx.count("tc_config", 1);
+                        let a = crate::obs::analyze_tc(&code, vm(), crate::obs::tc_variant(variant).1, &Vec::new(), CountingWatchdog::new(1000, Some(BUDGET)));
+                        let s = crate::obs::analyze_staged_tc(&code, vm(), crate::obs::tc_variant(variant).1, &Vec::new(), lazy());
+                        let verdict = if a.class == Class::Panic || s.class == Class::Panic {
+                            let p = a.panic.clone().or(s.panic.clone()).unwrap_or_default();
+                            Some((format!("panic:{}", panic_site(&p)), format!("panicked: {p}")))
+                        } else if a.class == Class::ErrStopped {
+                            Some(("hang:polls-exhausted".to_string(), format!("analyze() was still running after {BUDGET} polls at interval 1000")))
+                        } else if a.canon() != s.canon() {
+                            Some(("staged-differs".to_string(), format!("analyze() gives {} but the staged calls give {}", a.canon(), s.canon())))
+                        } else {
+                            None
+                        };
+                        match verdict {
+                            None => {
+                                ctx.distinct("nontrivial", crate::util::h64(&(&code, variant, permissive)));
+                                ctx.distinct("outcome_classes", crate::util::h64(&format!("{:?}", a.class)));
+                            }
+                            Some((k, w)) => ctx.violation(
+                                k,
+                                format!("{w} [{} with type-checker configuration `{name}`, permissive = {permissive}]", hex(&code[..code.len().min(60)])),
+                                json!({"bytes": hex(&code), "config": vm_config_json(&vm()), "tc_variant": variant}),
+                            ),
+                        }
+                    }
+                }
+            }
             Chunk::ConfigGrid(i) => {
                 run(ctx, "config_grid", &grid_programs()[i], config_grid());
             }
@@ -508,7 +559,7 @@ impl Check for C01 {
              28 multi-operand opcodes (<= 3 non-zero operands above arity 4) x 3 consumer tails; {} pipeline templates (mask/shift/ \
              divide/multiply packing, mapping offset, array index, hashed memory, exp/sar/signextend/byte, return/log/revert) x B x B \
              with |B| = {}; every prefix of the {} smallest shipped contracts and every single-byte substitution (12 replacement bytes incl. STOP, JUMPDEST, \
-             JUMP, JUMPI, PUSH1, PUSH32, SHL, SHR, SHA3, SLOAD, SSTORE, SELFDESTRUCT) at every offset of the smallest one (thorough: of all of them); up to 19 loop-free programs (the templates with benign constants, a fork chain, a two-variable idiom program, a copy / load / store) under EVERY configuration whose five limits are each 1, 7, the default or usize::MAX, in both error modes (2 048 configurations). Each input goes through analyze() and through the \
+             JUMP, JUMPI, PUSH1, PUSH32, SHL, SHR, SHA3, SLOAD, SSTORE, SELFDESTRUCT) at every offset of the smallest one (thorough: of all of them); up to 19 loop-free programs (the templates with benign constants, a fork chain, a two-variable idiom program, a copy / load / store) under EVERY configuration whose five limits are each 1, 7, the default or usize::MAX, in both error modes (2 048 configurations); those programs and one idiom program per representative kind under 31 type-checker configurations built from the public passes and rules (default, no passes, no rules, neither, each single pass left out, each single rule left out, passes reversed, the extra public rule added). Each input goes through analyze() and through the \
              staged API (results must agree) under a panic guard; aborts and hangs are attributed by the process supervisor. \
              non-trivial = (input, configuration) that got past execution into the type checker; distinct by content",
             if tier.thorough() { " and 3 (length 3: default configuration)" } else { "" },
@@ -532,6 +583,14 @@ impl Check for C01 {
         let code = unhex(c["bytes"].as_str().unwrap());
         let cfg = c.get("config").map(vm_config_from_json).unwrap_or_default();
         println!("code: {} config: {}", hex(&code), vm_config_json(&cfg));
+        if let Some(variant) = c["tc_variant"].as_u64() {
+            let (name, tc) = crate::obs::tc_variant(variant as usize);
+            println!("type-checker configuration: {name}");
+            let a = crate::obs::analyze_tc(&code, cfg.clone(), tc, &Vec::new(), CountingWatchdog::new(1000, Some(BUDGET)));
+            let s = crate::obs::analyze_staged_tc(&code, cfg.clone(), crate::obs::tc_variant(variant as usize).1, &Vec::new(), lazy());
+            println!("analyze(): {}\nstaged:    {}", a.json(), s.json());
+            return a.class == Class::Panic || s.class == Class::Panic || a.class == Class::ErrStopped || a.canon() != s.canon();
+        }
         match check_one(&code, &cfg) {
             Ok(class) => {
                 println!("observed: returns normally ({class:?})");
